@@ -3,7 +3,7 @@
    STUN-shaped or not): "unmodified" is identity of the token; packetio.Buffer is assumed FIFO. *)
 From Coq Require Import ZArith Bool List.
 From Ice Require Import Model.AgentTypes Model.AgentCore Model.AgentObs Model.AgentMonitors Gen.Consts
-     Proofs.AgentFrame Proofs.AgentC07 Proofs.AgentC06 Proofs.AgentC03Sel Proofs.AgentRem Proofs.AgentEnds Proofs.AgentSentStats Model.PairMonitor Model.TwoAgents Model.TwoAgentsData Proofs.TwoAgentsDataProofs.
+     Proofs.AgentFrame Proofs.AgentC07 Proofs.AgentC06 Proofs.AgentC03Sel Proofs.AgentRem Proofs.AgentEnds Proofs.AgentSentStats Model.PairMonitor Model.TwoAgents Model.TwoAgentsData Proofs.TwoAgentsDataProofs Proofs.AgentC07Valid.
 Import ListNotations.
 Local Open Scope Z_scope.
 
@@ -167,6 +167,16 @@ Module C07_example_selected_pair.
   Example counters_after : (s_bytes_sent (runs cfg s ops), map (fun p => (p_id p, p_bytes_sent p, p_pkts_sent p)) (s_checklist (runs cfg s ops))) = (150, [(1, 150, 2)]).
   Proof. vm_compute. reflexivity. Qed.
 End C07_example_selected_pair.
+
+(* "Application data travels only over validated pairs", for EVERY history: whatever datagram the next operation
+   writes goes from the local socket of a listed, validated (Succeeded) pair to that pair's remote address. *)
+Theorem C07_data_only_over_validated_pairs_all_histories : forall cfg lu lp ops o lh dst q,
+  let s := fst (run cfg lu lp ops) in
+  In (OData lh dst q) (snd (step cfg s o)) ->
+  exists pr, In pr (s_checklist s) /\ p_state pr = CandidatePairStateSucceeded /\
+             lh = c_h (p_loc pr) /\ dst = c_addr (p_rem pr).
+Proof. exact data_only_over_validated_pairs. Qed.
+Print Assumptions C07_data_only_over_validated_pairs_all_histories.
 
 (* ---- across two agents (Model/TwoAgentsData.v: the two-agent system of C01 with application datagrams routed like
    STUN ones and delivered, dropped or duplicated at will): "arrives unmodified ... at the peer's reader" and nothing
